@@ -27,7 +27,7 @@ RULE = ('corpus: atoms (None, Ellipsis, bools, ints to 2**64 and 10**30, floats 
         'constructors plus root-only nodes (commutative nodes in both operand orders and through add()/+), transform items, references, points, reference/points/transform sequences, solver method objects, '
         'and objects derived from 13 small topologies and 7 solver Systems (references, transforms, opposites, samples, points sequences, lowered integrals). '
         'Every value x every route (variants, pickle, child process per hash seed) is one evaluation; injectivity is decided for ALL pairs of values through a hash join. '
-        'non-trivial = distinct value that has >= 2 routes, or a distinct interning history. interning: all histories over create(value, route)/drop/gc/pickle of depth<=4 (thorough 5) '
+        'non-trivial = distinct value that has >= 2 routes, or a distinct interning history. interning: all histories over create(value, route)/drop/gc/pickle of depth<=4 (thorough: 5 over 2 routes, 4 over all routes) '
         'for 11 subjects of 3-4 values x 2-4 routes; states = distinct (live slot values, dropped-not-collected values)')
 ASSUMPTIONS = ['same(v,w) is the hand-written canon of the spec language: type exact, numpy scalars identified with the Python scalar of equal value (documented normalisation), NaN == NaN, -0.0 != 0.0, '
                'containers by structure, sets/dicts/multisets unordered, ndarrays by (dtype incl. byte order, shape, elements) irrespective of memory layout, constructor calls by class and full parameter list',
@@ -40,15 +40,11 @@ BUDGET_S = {'quick': 900, 'thorough': 3600}
 SEEDS = (0, 1, 12345)
 
 
-def depth_for(tier):
-    return 4 if tier == 'quick' else 5
-
-
 def shards(tier, seed):
     out = []
     for name in ci.subjects(tier):
         for i in range(ci.nfirst(name, tier)):
-            out.append({'kind': 'intern', 'subject': name, 'first': i, 'depth': depth_for(tier)})
+            out.append({'kind': 'intern', 'subject': name, 'first': i})
     nb = len(cv.blocks(tier))
     for i in range(nb):
         out.append({'kind': 'corpus', 'block': i})
@@ -68,8 +64,12 @@ def hash_of(spec, route):
         obj = cc.build_route(spec, route)
     except Exception as e:
         return ('build', '{}: {}'.format(type(e).__name__, str(e)[:200]))
-    if route != 'pickle':
-        vc = cc.vcanon(obj)
+    if route != 'pickle' and spec[0] not in ('arraydata', 'frozendict', 'frozenmultiset'):
+        # self check of the builder on plain Python / numpy values (nutils' own containers are judged by their hashes only)
+        try:
+            vc = cc.vcanon(obj)
+        except Exception:
+            vc = None  # a nutils container nested in a plain one could not be read back
         if vc is not None and cc._jkey(vc) != cc.ckey(spec):
             raise core.HarnessError('route {} of {} built {}'.format(route, cc.expr(spec), vc))
     try:
